@@ -83,7 +83,7 @@ pub fn install_panic_hook() {
                 .location()
                 .map(|l| {
                     let f = l.file();
-                    let short = match f.find("/src/") {
+                    let short = match f.rfind("/src/") {
                         Some(i) => {
                             let head = &f[..i];
                             let krate = head.rsplit('/').next().unwrap_or("");
